@@ -208,7 +208,41 @@ def rule_g6(ctx):
         ctx.check(src(f.body[-1]) == f"return ThreeValuedTruth(ThreeValuedTruth.{const})", "G6-kleene", f"{TVT}:ThreeValuedTruth.{meth}", f"builds {const}", site(f), f"found {src(f.body[-1])}", "builds its own constant")
 
 
+def rule_g7(ctx):
+    """The match-expression prefix oracle tries every ancestor of the open leaf, including the root of the reference tree."""
+    f = ctx.repo.func(EVAL, "can_extend_leaf_to_make_quantifier_match_parent", "C06.G7")
+    c = f"{EVAL}:can_extend_leaf_to_make_quantifier_match_parent"
+    loops = [n for n in walk_local(f) if isinstance(n, ast.For) and isinstance(n.target, ast.Name) and n.target.id == "idx"]
+    if len(loops) != 1:
+        raise Unrecognised("C06.G7", c, "ancestor loop `for idx in ...` not found")
+    it = " ".join(src(loops[0].iter).split())
+    good = {"reversed(range(len(path_to_nonterminal)))", "range(len(path_to_nonterminal) - 1, -1, -1)", "range(len(path_to_nonterminal))"}
+    if it in good:
+        ctx.ok("G7-ancestors", c, "every proper prefix incl. the empty path (root)", site(loops[0]), "all ancestors are candidates")
+    else:
+        import re as _re2
+
+        m = _re2.fullmatch(r"(?:reversed\()?range\((.*)\)\)?", it)
+        if m is None:
+            raise Unrecognised("C06.G7", c, f"ancestor iteration `{it}` not understood")
+        ctx.viol("G7-ancestors", c, "every proper prefix incl. the empty path (root)", site(loops[0]),
+                 f"the ancestor loop iterates `{it}`, which does not cover all prefix lengths 0..len(path)-1: an ancestor (e.g. the root of the reference tree) that could still "
+                 "come to match the quantifier's match expression is never tried, so the leaf is reported as 'cannot matter' and a definite verdict is returned")
+    sub = [n for n in walk_local(f) if isinstance(n, ast.Assign) and src(n.targets[0]) == "subtree"]
+    ok = len(sub) == 1 and src(sub[0].value) == "tree.get_subtree(path_to_nonterminal[:idx])"
+    ctx.check(ok, "G7-ancestors", c, "candidate = ancestor at the prefix path", site(f), f"found {src(sub[0].value) if sub else None}", "prefix path")
+    # count(): more needles possible from ALL open leaves
+    cf = ctx.repo.func("src/isla/isla_predicates.py", "count", "C06.G7")
+    ln = [n for n in walk_local(cf) if isinstance(n, ast.Assign) and src(n.targets[0]) == "leaf_nonterminals"]
+    mp = [n for n in walk_local(cf) if isinstance(n, ast.Assign) and src(n.targets[0]) == "more_needles_possible"]
+    ok = len(ln) == 1 and src(ln[0].value) == "[node.value for _, node in in_tree.open_leaves()]" and len(mp) == 1 and " ".join(src(mp[0].value).split()) == "any((reachable(graph, leaf_nonterminal, needle) for leaf_nonterminal in leaf_nonterminals))"
+    ctx.check(ok, "G7-count-open", "src/isla/isla_predicates.py:count", "more needles possible = some open leaf (any label) reaches the needle", site(cf),
+              f"found leaf_nonterminals={src(ln[0].value) if ln else None}; more_needles_possible={src(mp[0].value)[:90] if mp else None}: filtering open leaves lets count answer definitely although an "
+              "open leaf (e.g. one labelled with a recursive needle) can still produce occurrences", "all open leaves considered")
+
+
 def run(ctx) -> str:
+    ctx.guarded("G7", lambda: rule_g7(ctx))
     ctx.guarded("G1", lambda: rule_g1(ctx))
     ctx.guarded("G2", lambda: rule_g2(ctx))
     ctx.guarded("G3", lambda: rule_g3(ctx))
